@@ -241,6 +241,8 @@ func c18Values(run *hx.Run) []hx.Value {
 func C18(run *hx.Run) {
 	run.Rule = "monitor 1: every (stored value, destination kind) pair over the value grid extended with numeric-looking / malformed / time-format text and large blobs x 13 destination kinds (8 supported, nil, 4 unsupported) x argument counts 0..width+2, plus ScanString/ScanStringString/ScanStrings; compared with an independent model of the documented rules (value and error-ness), panics recovered, row deep-compared before/after. monitor 2 (child process): scan every column of every row of a generated database into string and []byte with deep copies; overwrite every scanned []byte with 0xAA; re-read the rows from the same handle (cache) and a fresh handle; then Close, overwrite + truncate the file, GC, and compare the scanned values with the copies. distinct = (value, destination kind, position/arity) triples + lifetime rows"
 	run.Assumptions = append(stdAssumptions, "numbers convert 'by Go conversion': the model uses the same Go conversion expressions, so out-of-range float->int results are compared on this platform")
+	// SQLite's zone-less timestamps are UTC whatever the zone of the process: run with a non-UTC local zone
+	time.Local = time.FixedZone("verif+0230", 2*3600+1800)
 	vals := c18Values(run)
 	run.SetExtra("grid_values", len(vals))
 	// ---- monitor 1 ----
@@ -323,6 +325,15 @@ func C18(run *hx.Run) {
 		for i := range row {
 			row[i] = vals[rng.Intn(len(vals))]
 		}
+		// a third of the rows are a prefix of a wider record (spare capacity behind them), as the
+		// rows cut from index entries are: Scan must not write behind the row
+		var wide sqlittle.Row
+		if t%3 == 0 {
+			wide = make(sqlittle.Row, w+3)
+			copy(wide, row)
+			wide[w], wide[w+1], wide[w+2] = "sentinel-a", int64(424242), []byte("sentinel-c")
+			row = wide[:w]
+		}
 		n := rng.Intn(w + 3)
 		kinds := make([]string, n)
 		for i := range kinds {
@@ -333,6 +344,12 @@ func C18(run *hx.Run) {
 			}
 		}
 		check(row, kinds)
+		if wide != nil {
+			if s, _ := wide[w].(string); s != "sentinel-a" || wide[w+1] != int64(424242) || string(wide[w+2].([]byte)) != "sentinel-c" {
+				run.Violation("C18/row-modified/behind-the-row", fmt.Sprintf("Row.Scan with %d destinations on a %d-column row that is a prefix of a wider record overwrote the record behind the row: %s", n, w, hx.RowString(wide)), nil)
+			}
+			run.See("row_shape", "prefix-of-wider-record")
+		}
 		run.See("arity_minus_width", fmt.Sprint(n-w))
 		if t < 3 {
 			run.Sample(hx.M{"row": hx.RowString(row), "destinations": kinds})
